@@ -1,6 +1,7 @@
 package worlds
 
 import (
+	"sort"
 	"fmt"
 
 	"github.com/bradenaw/juniper/xsync"
@@ -18,18 +19,37 @@ func init() {
 	ExpectedProbes["cond"] = []string{"two-waiters-in-window-at-signal", "signal-while-waiter-in-window", "broadcast-while-waiter-in-window", "wait-cancelled", "wait-woken-by-signal", "wait-woken-by-broadcast"}
 }
 
+// obsLocker is the Locker handed to the ContextCond: a mutex, or - in shared-lock runs - the read
+// side of an RWMutex, which several waiters can hold at the same time (sync.Cond allows any Locker).
+// It records who holds it.
 type obsLocker struct {
-	m        *vsync.Mutex
+	inner    interface{ Lock(); Unlock() }
+	holders  map[*sim.Task]int
 	onUnlock func(t *sim.Task)
 }
 
-func (l *obsLocker) Lock() { l.m.Lock() }
+func (l *obsLocker) Lock() {
+	l.inner.Lock()
+	l.holders[sim.Self()]++
+}
 func (l *obsLocker) Unlock() {
 	t := sim.Self()
-	l.m.Unlock()
+	l.holders[t]--
+	l.inner.Unlock()
 	if l.onUnlock != nil {
 		l.onUnlock(t)
 	}
+}
+func (l *obsLocker) heldBy(t *sim.Task) bool { return l.holders[t] > 0 }
+func (l *obsLocker) owners() string {
+	var out []string
+	for t, n := range l.holders {
+		if n > 0 {
+			out = append(out, fmt.Sprint(t))
+		}
+	}
+	sort.Strings(out)
+	return fmt.Sprint(out)
 }
 
 type condWaiter struct {
@@ -50,8 +70,12 @@ func condWorld(r *R) {
 	}
 	root := NewCtx(nil, "root")
 	cs := &Calls{r: r}
-	L := &vsync.Mutex{}
-	ol := &obsLocker{m: L}
+	ol := &obsLocker{inner: &vsync.Mutex{}, holders: map[*sim.Task]int{}}
+	if r.Choose(5, "shared-locker") == 4 {
+		// the read side of an RWMutex: several waiters can be inside Wait's prologue at once
+		ol.inner = (&vsync.RWMutex{}).RLocker()
+		r.Probe("shared-locker")
+	}
 	cond := xsync.NewContextCond(ol)
 
 	waiters := make([]*condWaiter, k)
@@ -87,6 +111,10 @@ func condWorld(r *R) {
 		switch wctx {
 		case 3:
 			w.ctx = NewCtx(root, fmt.Sprintf("w%d", i))
+			if r.Choose(3, "with-cause") == 2 {
+				// cancelled with a cause of its own: Err() is still context.Canceled
+				w.ctx = NewCauseCtx(root, fmt.Sprintf("w%d", i), NewErr("cause"))
+			}
 			cancellable = append(cancellable, w.ctx)
 		case 4:
 			w.ctx = PreCancelled(root, fmt.Sprintf("w%d", i))
@@ -134,8 +162,8 @@ func condWorld(r *R) {
 			cs.End(c, 0, err == nil, err)
 			self := sim.Self()
 			if err == nil {
-				if L.Owner() != self {
-					r.Violate("C16", "nil-return-without-lock", "Wait returned nil but the caller does not hold the lock (owner=%v)", L.Owner())
+				if !ol.heldBy(self) {
+					r.Violate("C16", "nil-return-without-lock", "Wait returned nil but the caller does not hold the lock (held by %v)", ol.owners())
 					return
 				}
 				if w.unlockSeq == 0 {
@@ -143,7 +171,7 @@ func condWorld(r *R) {
 				}
 				ol.Unlock()
 			} else {
-				if L.Owner() == self {
+				if ol.heldBy(self) {
 					r.Violate("C16", "error-return-holding-lock", "Wait returned %v but still holds the lock", err)
 					ol.Unlock()
 					return
@@ -241,7 +269,7 @@ func condWorld(r *R) {
 	for _, w := range waiters {
 		if w.call == nil {
 			// never got to call Wait: somebody holds the lock for ever
-			r.Violate("C16", "stuck/lock", "waiter%d never acquired the lock (owner=%v)", w.id, L.Owner())
+			r.Violate("C16", "stuck/lock", "waiter%d never acquired the lock (held by %v)", w.id, ol.owners())
 			return
 		}
 		if w.call.Returned {
